@@ -101,6 +101,22 @@ def iteration_effects(ev, env, depth=0, max_depth=6, seen=None):
             for r in iteration_effects(ev, sub, depth + 1, max_depth, seen):
                 yield r
             continue
+        if cid in ("std::ops::FnOnce::call_once", "std::ops::FnMut::call_mut", "std::ops::Fn::call") and len(args) == 2 and \
+                args[0][0] in ("closure", "fnref") and args[1][0] == "tuple" and depth < max_depth:
+            # a closure / function value called directly (`select(&x)`): its effects happen here
+            f = args[0]
+            fkey = f[1] if f[0] == "closure" else f[2]
+            cb = ev.facts.bodies.get(fkey)
+            if cb is not None and fkey not in ev.opaque:
+                a = {1: f} if f[0] == "closure" else {}
+                off = 2 if f[0] == "closure" else 1
+                for i, x in enumerate(args[1][1]):
+                    a[off + i] = x
+                sub = ev.inline_env(cb, a, depth + 1, env.path + ((body.key, bi),))
+                sub.parent = env
+                for r in iteration_effects(ev, sub, depth + 1, max_depth, seen):
+                    yield r
+                continue
         yield Effect("call", cid, fn.get("self_adt"), [norm_elems(a) for a in args], t, body, bi, env, list(args))
         # closures driven by adapters
         clo_idx = None
